@@ -157,10 +157,10 @@ def _graph_rt(tier, seed, only=None):
     distinct = set()
     configs = [([2, 3, 1, 4, 2, 1], (2, 5)), ([1, 1, 1, 1, 1, 1], (5,)), ([4, 2, 2, 3, 1, 5], (1, 3, 5))]
     if tier == "thorough":
-        for _ in range(6):
+        for _ in range(40):
             configs.append(([rng.randint(1, 6) for _ in range(6)], tuple(sorted(set(rng.sample(range(5), rng.randint(0, 2))) | {5}))))
     for lengths, ends in configs:
-        for r in range(1, 5 if tier == "thorough" else 4):
+        for r in range(1, 7 if tier == "thorough" else 5):
             for subset in itertools.combinations(range(6), r):
                 for order in itertools.permutations(subset):
                     if only is not None and (list(order) != only["order"] or lengths != only["lengths"] or list(ends) != only["ends"]):
@@ -179,7 +179,7 @@ def graph_rt(tier):
     return _RtGeneric("K18/graph/insertion-orders", ["C18"], ["amoco.cfg:graph.add_vertex", "amoco.cfg:graph.__cut_add_vertex", "amoco.cfg:node.cut", "amoco.code:block.cut",
                                                               "amoco.system.memory:MemoryZone.locate", "amoco.system.memory:MemoryZone.write"],
                       _graph_rt, ("contracts.cfg:graph_rt", {"tier": tier}),
-                      "small-scope exhaustive: streams of 6 instructions, every subset of <= 3 (thorough: 4) block starts in every insertion order; distinct = different (stream, order) pairs", tier)
+                      "small-scope exhaustive: streams of 6 instructions, every subset of <= 4 (thorough: all 6) block starts in every insertion order; distinct = different (stream, order) pairs", tier)
 
 
 def obligations(prop, tier, seed):
